@@ -736,6 +736,12 @@ func runC05(c *hc.Ctx) error {
 		if i%4 == 3 { // valid polygons, a share of them with decimal-like ordinates next to pixel borders
 			g, poly, kind = validCase(c, grids, 10)
 		}
+		if i%9 == 4 { // the same directed line walked twice: a self-touching hole given twice, two holes starting with one line
+			gg := pickGrid(c, grids)
+			if p2, ok := genRepeatedLines(c.Rng, gg); ok {
+				g, poly, kind = gg, p2, "the same directed line walked twice (self-touching hole given twice / two holes sharing a line)"
+			}
+		}
 		ids := randIDs(c.Rng, g)
 		c.Count("kind " + kind)
 		results := map[[2]bool]*Result{}
